@@ -1,34 +1,49 @@
 (* C02 — finality is sound, ordered, gap-free, never revoked; stalled blocks are dead: statements.
-   Model: Model/Forkable.v (fk_step / fk_run); monitor: fin_mon / c02_b of Spec/Consumer.v. *)
-From BV Require Import Base.Prelude Model.Block Model.ForkDB Model.Forkable Spec.Consumer Spec.Universe Spec.C01_Spec.
+   The model under these statements is Model/Forkable.v (fk_step / fk_run); the finality monitor is
+   fin_mon / c02_b of Spec/Consumer.v, the one the checker evaluates on the implementation's trace. *)
+From BV Require Import Base.Prelude Model.Block Model.ForkDB Model.Forkable Spec.Consumer Spec.Universe
+  Spec.C01_Moving_Spec.
 Local Open Scope N_scope.
 
-(* the finality monitor accepts the run: Irreversible events form a gap-free parent-linked chain
-   extending the starting LIB, each is the oldest pending block of the consumer's chain and lies at or
-   below the LIB number declared by the incoming block, none is later undone or reported stalled;
-   Stalled blocks are never on the consumer's chain, never final, at or below the final height, and
-   reported once *)
+(* what C02 says about one history: the monitor accepts the whole trace.  Per event it checks:
+   Irreversible: the block is the root LIB itself (first announcement only) or a child of the last
+     block announced final (gap-free parent-linked chain extending the starting LIB); it was never
+     reported stalled; its number is at most the LIB number declared by the incoming block; it is the
+     oldest pending (not yet final) block of the consumer's stack;
+   Undo: the block was never announced final (finality is never revoked), and it is the top of the stack;
+   New: its parent is the top of the stack (or the root rule);
+   Stalled: never announced final, not reported stalled before, not on the consumer's stack, number at
+     or below the height of the last final block. *)
 Definition c02_statement (cfg : config) (m : libmode) (h : list block) : Prop :=
   c02_b m h (fk_run cfg (fs_init m) h) = true.
 
+(* the property's quantifier *)
 Definition c02_scope (cfg : config) (m : libmode) (h : list block) : Prop :=
   (match m with LNone => c_hold cfg = true | _ => True end) /\
   f_new (c_filter cfg) = true /\ f_undo (c_filter cfg) = true /\ f_irr (c_filter cfg) = true /\
   wf_b h = true /\ lib_ok_b m h = true.
 
-(* FULL STRENGTH: stated, not proved; the checker c02_prop evaluates exactly this monitor on the
-   implementation's observation of every generated history *)
+(* FULL STRENGTH (not proved in this generality; the checker c02_prop evaluates exactly this monitor on
+   every generated history against the implementation's observation) *)
 Definition c02_full : Prop := forall cfg m h, c02_scope cfg m h -> c02_statement cfg m h.
 
-(* The degenerate part that is proved: with an exclusive starting LIB that the history never moves
-   (class of c01_fixed_lib_statement) no finality event is ever produced: every delivered event is New
-   or Undo, whatever the filter, hence the monitor accepts. *)
-Definition no_finality_events (t : trace) : Prop :=
-  Forall (fun x : list event * result => Forall (fun e => estep e = SNew \/ estep e = SUndo) (fst x)) t.
+(* The part that is proved: a configured starting LIB r0 (exclusive or inclusive, any includeInitialLIB
+   flag) coherent with the history (moving_scope_b); any handler oracle (never failing, or failing at
+   any call: the trace is then cut at the failing call).  The LIB moves freely: jumps of many blocks,
+   branches that disagree on finality, LIB = head, reorganisation and LIB jump in the same step, any
+   retention. *)
+Definition c02_moving_lib_statement : Prop :=
+  forall cfg r0 m h,
+    rooted_mode r0 m ->
+    f_new (c_filter cfg) = true -> f_undo (c_filter cfg) = true -> f_irr (c_filter cfg) = true ->
+    moving_scope_b r0 h = true ->
+    c02_statement cfg m h.
 
-Definition c02_fixed_lib_statement : Prop :=
-  forall cfg r0 h,
-    c_fail_at cfg = None -> c_incl cfg = false ->
-    f_new (c_filter cfg) = true -> f_undo (c_filter cfg) = true ->
-    c01_fixed_scope_b r0 h = true ->
-    no_finality_events (fk_run cfg (fs_init (LExcl r0)) h) /\ c02_statement cfg (LExcl r0) h.
+(* discovery mode (hold-until-LIB): the first announcement is the discovered LIB block itself (the root
+   announcement), which need not be on the consumer's stack *)
+Definition c02_discovery_statement : Prop :=
+  forall cfg h,
+    c_hold cfg = true -> c_incl cfg = false ->
+    f_new (c_filter cfg) = true -> f_undo (c_filter cfg) = true -> f_irr (c_filter cfg) = true ->
+    disc_scope_b h = true ->
+    c02_statement cfg LNone h.
